@@ -350,7 +350,7 @@ def op_extent(fs, d, r, keep_csum):
     return "inode %d extent %s changed" % (ino, k)
 
 
-ORPHAN_VARIANTS = ["entries", "magic", "start", "len"]
+ORPHAN_VARIANTS = ["entries", "magic", "start", "len", "dirty_block0", "dirty_block_mid", "dirty_two_blocks"]
 
 
 def op_orphan_file(fs, d, r, keep_csum, which="entries"):
@@ -361,6 +361,21 @@ def op_orphan_file(fs, d, r, keep_csum, which="entries"):
         raise FormatError("no orphan file")
     a = fs.inode_loc(ino) + 40
     magic, entries, mx, depth = struct.unpack_from("<HHHH", d, a)
+    if which.startswith("dirty"):
+        # a stale entry (the number of a free inode) in an orphan block while orphan_present is clear, block checksum valid:
+        # the end-of-run check has to rewrite that block and leave every other block as it is
+        m, _ = fs.file_map(ino)
+        blks = [m[k][0] for k in sorted(m)]
+        gen = fs.inode(ino)["generation"]
+        pick = {"dirty_block0": [0], "dirty_block_mid": [len(blks) // 2], "dirty_two_blocks": [1, len(blks) - 2]}[which]
+        for k in pick:
+            o = blks[k] * fs.bs
+            struct.pack_into("<I", d, o + 4 * (3 + k), fs.inodes_count - 1 - k)
+            if fs.has_csum:
+                n = (fs.bs - 8) // 4 * 4
+                c = crc32c(crc32c(crc32c(crc32c(_seed(fs), struct.pack("<I", ino)), struct.pack("<I", gen)), struct.pack("<Q", blks[k])), bytes(d[o:o + n]))
+                struct.pack_into("<I", d, o + fs.bs - 4, c)
+        return "orphan file inode %d: stale entry in block(s) %s" % (ino, pick)
     if which == "entries":
         struct.pack_into("<H", d, a + 2, mx + 3)
         struct.pack_into("<I", d, a + 12 + 8, fs.blocks_count * 60 + 10)
